@@ -35,5 +35,28 @@ ADDENDA6 = {
 }
 
 
+ADDENDA7 = {
+    'C01': "Every type also meets its first members with about 70 elements or keys (small types 300; thorough 1 100), each with a wrong element at the far end and with an equal-valued element of another kind (1 / 1.0 / True) first and last; leaves include a Literal with ten alternatives (0 and False both), an enum whose values are spelled like the other member's name, a date subclass, a one-sided range over strings, a class whose hook reads the record of supplied fields and one whose own default is ill-typed.",
+    'C03': "The same large members, the ten-alternative Literal and the hook that reads the record of supplied fields.",
+    'C04': "Unknown keys include strings no naming style can split ('_q', 'q--q'); large members; the ten-alternative Literal on unhashable data.",
+    'C05': "Unions of two members that are the same container class with different element types (values of both meet one converter in turn).",
+    'C06': "Typed paths beginning with '~'; 70-element typed members.",
+    'C07': "Data in which a field is GIVEN its own default (or an equal value of another kind) next to another failing field; 70-element sequences with an equal-valued twin.",
+    'C08': "A value whose str() itself renders a pane error; plain strings must be shown as they were given.",
+    'C09': "A non-dict mapping whose indexing inserts; 70-key plain dicts through the tagged layouts.",
+    'C10': "A shard that subscripts five related generic dataclasses with equal arguments in every order of 2-3 (each order in a forked child); a shared handler mapping whose keys stay and whose converter changes.",
+    'C11': "70-element sequences of all accepted values in two orders, judged element by element; a dataclass and its subclass as members; generic classes whose variable sits below a container inside a union (known finding: typing's memo).",
+    'C12': "A variant that reads positional data only; a subclass variant with its own tag; numeric tags of another kind are undeclared.",
+    'C13': "Ranges over strings and dates and with bounds beyond 2**53; inner types SubInt, an IntEnum with a member of 10**400, date, Fraction, Decimal.",
+    'C14': "An init=False field of another type declared before the positional fields.",
+    'C15': "One mapping object converted, edited in place by its owner and converted again; an alias that Unicode normalisation would change.",
+    'C16': "Histories over a frozen instance that holds a non-frozen hashable one under a rejecting hook; a two-parameter generic bound in one and in two steps.",
+    'C17': "Generic dataclasses as arguments of generic dataclasses; inherited frozen after rejected constructions; one field() object in three class bodies in every order.",
+    'C18': "Handlers must reach init=False fields on output.",
+    'C19': "Numeric-looking strings under the full YAML cube; lone surrogates through every JSON sink.",
+    'C20': "A shard that first renames out-of-domain but accepted names (one-letter words and their images), then checks the laws.",
+}
+
+
 def text(pid):
-    return (ADDENDA.get(pid, '') + ' ' + ADDENDA6.get(pid, '')).strip()
+    return (ADDENDA.get(pid, '') + ' ' + ADDENDA6.get(pid, '') + ' ' + ADDENDA7.get(pid, '')).strip()
